@@ -5,7 +5,7 @@
    the real sink (coq/extract/Ex_rotate.v extracts these very definitions).
    Quantification: every op list [ops] (Write of any payload / Advance of the wall clock, never
    backwards / Restart / PutForeign), every configuration [c] (any L, any N, all 8 option sets, three
-   timestamp granularities, any base name and suffix), any start time.  Hypothesis [clean c ops]:
+   timestamp granularities, any base name and suffix, any time zone offset within +-24 h), any start time.  Hypothesis [clean c ops]:
    nobody else creates files that follow the sink's own rotated-name scheme (PutForeign names are
    rejected by the sink's recogniser).  The model's wall clock saturates at 9999-12-31. *)
 From Coq Require Import List ZArith Sorted.
@@ -37,7 +37,7 @@ Print Assumptions C07_oracle_holds.
 
 (* non-vacuity: L = 4; records of 2, 2 (fits exactly), 1 (rotates), 6 (over-limit, alone), 1 bytes *)
 Example C07_nonvacuous :
-  let c := {| cL := 4; cN := 0; startup := false; daily := false; compress := false; cgran := G1ms; cbase := [97%N]; csuffix := [] |} in
+  let c := {| cL := 4; cN := 0; startup := false; daily := false; compress := false; cgran := G1ms; cbase := [97%N]; csuffix := []; ctz := 0 |} in
   let w := run src_shape c 0 [Write [120%N]; Write [120%N]; Write []; Write [1%N; 2%N; 3%N; 4%N; 5%N]; Write []] in
   (map (fun f => size (fcont f)) (rot w), size (act w)) = ([4; 1; 6], 1).
 Proof. vm_compute. reflexivity. Qed.
